@@ -4,10 +4,11 @@ import MirGen.Tables
   MirModel.Chord.Split — Layer M: `validate_chord_label`, `split`, `join`, `reduce_extended_quality`
   of mir_eval/chord.py mirrored on Python *strings* (lists of code points), quirks included:
 
-  * `CHORD_RE.match(s)` with `^…$`: Python's `$` also matches just before a final "\n", so the set of
-    accepted strings is  L ∪ { t ++ "\n" | t ∈ L }  where L is the regular language of the pattern.
-    The pattern itself is not translated; `recognize` (Grammar.lean) stands for L — that identification
-    is what the exhaustive-to-depth differential of harness/props/c10.py checks against `re`.
+  * `CHORD_RE.match(s)` with `^…\Z` (the pattern is anchored at the very end of the string since the
+    repair `fix: chord label validation no longer accepts a trailing newline`): the set of accepted strings is
+    the regular language L of the pattern.  The pattern itself is not translated; `recognize` (Grammar.lean)
+    stands for L — that identification is what the exhaustive-to-depth differential of harness/props/c10.py
+    checks against `re`.
   * `a, b = s.split(sep)` raises ValueError unless there is exactly one separator (`unpack2`).
   * `set(...)` is a duplicate-free list (first occurrences, insertion order); Python's iteration order is
     unspecified, so theorems about consumers of the set are stated for every permutation.
@@ -45,12 +46,11 @@ def setInsert (s : List Str) (x : Str) : List Str := if x ∈ s then s else s ++
 def setUnion (s t : List Str) : List Str := t.foldl setInsert s
 def setOfList (xs : List Str) : List Str := setUnion [] xs
 
-/-- the language of `CHORD_RE` between `^` and `$` (see the header) -/
+/-- the language of `CHORD_RE` between `^` and `\Z` (see the header) -/
 def inLanguage (s : Str) : Bool := (recognize s).isSome
 
 /-- `CHORD_RE.match(s) is not None` -/
-def reMatch (s : Str) : Bool :=
-  inLanguage s || (s.getLast? == some '\n' && inLanguage s.dropLast)
+def reMatch (s : Str) : Bool := inLanguage s
 
 /-- `validate_chord_label` -/
 def pyValidate (s : Str) : Py Unit :=
